@@ -1432,6 +1432,13 @@ pub fn check(case: &Case) -> CheckResult {
             if got != vec![want] && !closed_before_stop[wi] && answered_ok && got == vec![RunState::NotAnswering as i32] {
                 fail!("C09/answers-dropped:closing-status", "closing Status: worker {wi} answered Ok at once but is reported NotAnswering");
             }
+            // a worker whose channel is closed may be reported Stopped (the hub has seen the hang-up) or
+            // NotAnswering (the hang-up and the Status arrived in one poll batch and the Status went first):
+            // both are truthful, the property prescribes neither; Running would be wrong
+            if closed_before_stop[wi] && got == vec![RunState::NotAnswering as i32] {
+                rep.class("closed_worker_reported_not_answering");
+                continue;
+            }
             if got != vec![want] {
                 fail!(
                     "C09/final-status-wrong",
